@@ -18,6 +18,10 @@ ASSUMPTIONS = ["ref/xml_tokenizer.json reviewed (snapshot of the code after the 
 
 
 def run(ctx):
+    ctx.rule("R15.8", "a run of characters is only appended (R03.10); finish_attribute empties both attribute buffers (R01.7)")
+    from . import tokrules as _tr8
+    ctx.guard("R15.8", "runs/xml", lambda: _tr8.runs_only_concatenate(ctx, "R15.8", "xml"))
+    ctx.guard("R15.8", "attr-buffers/xml", lambda: _tr8.attr_buffers_emptied(ctx, "R15.8", "xml"))
     ctx.rule("R15.7", "the tokenizer takes attribute value characters verbatim (no folding of line breaks or other characters inside a value)")
     from . import tokrules as _trv
     for _w in ('xml',):
